@@ -51,7 +51,10 @@ fn run(rep: &Report, dir: &std::path::Path, thorough: bool) -> i32 {
     let pbv = wormhole_aggregator::common::utils::canonical_private_batch_verifier_data(&leaf, 1).expect("canonical private batch");
     let pubv = wormhole_aggregator::common::utils::canonical_public_batch_verifier_data(&pbv, 2, 1).expect("canonical public batch");
 
-    let mut addrs: Vec<(&str, [u64; 4])> = vec![("A", dig(500)), ("B", { let mut b = dig(500); b[3] = (b[3] + 1) % P; b })];
+    // S has a small first limb: its byte encoding has a +p alias (limb 5+p), a different 32-byte
+    // address with the same field elements
+    let small = { let mut b = dig(500); b[0] = 5; b[3] = (b[3] + 1) % P; b };
+    let mut addrs: Vec<(&str, [u64; 4])> = vec![("A", dig(500)), ("S", small)];
     if thorough {
         addrs.push(("zero", [0; 4]));
         addrs.push(("pm1", [P - 1; 4]));
@@ -153,6 +156,39 @@ fn run(rep: &Report, dir: &std::path::Path, thorough: bool) -> i32 {
             rep.violation("len-3", "aggregator verify does not cleanly reject a proof with 3 public inputs", case.clone());
         }
     });
+    // a configured address whose BYTES differ from S but whose field elements coincide (limb 0 =
+    // 5 + p, constructible through the public BytesDigest::new_unchecked): it is a different
+    // address, so it must reject proofs exposing S, and must never hand out a proof (a proof can
+    // only expose the canonical S)
+    {
+        let mut bytes = limbs_to_bytes(small);
+        bytes[0..8].copy_from_slice(&(5u64 + P).to_le_bytes());
+        let alias = BytesDigest::new_unchecked(bytes);
+        match catch(|| PublicBatchAggregator::with_limits(dir, alias, PoolLimits::default())) {
+            Ok(Ok(ag)) => {
+                for ((a, b), r) in &proofs {
+                    if addrs[*a].0 != "S" {
+                        continue;
+                    }
+                    if let Ok(p) = r {
+                        rep.eval(1);
+                        rep.distinct(hash64(&("alias-verify", b)));
+                        if matches!(catch(|| ag.verify(p.clone())), Ok(Ok(()))) {
+                            rep.violation(&format!("alias-verify:{b}"), "an aggregator configured with a byte-distinct alias (limb+p) of address S ACCEPTS a valid proof exposing S", json!({"prover_address": "S", "verifier_address": "S with limb 0 replaced by 5+p (non-canonical bytes)", "batch": batches[*b]}));
+                        }
+                    }
+                }
+                rep.eval(1);
+                let ctx = ag.proving_context();
+                if let Ok(Ok(p)) = catch(|| ctx.prove_batch(vec![inners[0].clone()])) {
+                    let exposed: Vec<u64> = p.public_inputs[..4].iter().map(|x| x.to_canonical_u64()).collect();
+                    rep.violation("alias-prove", &format!("an aggregator configured with non-canonical address bytes returned a proof exposing {exposed:?}, which is not its configured 32-byte address"), json!({"configured": "S with limb 0 = 5+p"}));
+                }
+            }
+            Ok(Err(_)) => {} // refusing such an address at construction is fine
+            Err(pn) => rep.violation("alias-panic", &format!("aggregator construction panicked on non-canonical address bytes: {pn}"), json!({})),
+        }
+    }
     // the pooled path: push + aggregate returns a proof bound to the configured address
     {
         let mut ag = PublicBatchAggregator::with_limits(dir, addr(addrs[0].1), PoolLimits::default()).expect("aggregator");
@@ -176,6 +212,6 @@ fn run(rep: &Report, dir: &std::path::Path, thorough: bool) -> i32 {
     rep.extra("real_public_batch_proofs", json!(proofs.len()));
     rep.extra("bins", json!("generate_all_circuit_binaries(scratch, include_prover=true, 1 leaf proof per private batch, 2 private batches per public batch)"));
     rep.rule("case = (prover address a, verifier address b, batch of 1 or 2 genuine private-batch proofs) on the real PublicBatchAggregator over a freshly generated artifact directory; every proof returned must verify under an independently rebuilt canonical public-batch verifier and expose a; verify under b accepts iff a=b; every address limb and one felt of every other region incremented, and lengths -1/+1/3, must be rejected with an error, never a panic; an aggregator owning a rewritten address must reject the rewritten proof. distinct = distinct (a, b, batch, tamper) tuples");
-    rep.assume("address alphabet {A, A with one limb bumped} (+ zero, all limbs p-1 thorough); FRI/PLONK soundness of the verifier");
+    rep.assume("address alphabet {A, S (small first limb), the +p byte alias of S} (+ zero, all limbs p-1 thorough); FRI/PLONK soundness of the verifier");
     rep.finish()
 }
